@@ -547,6 +547,9 @@ func main() {
 		{"*a", "*b", "*b", "*c", "*b"},
 		{"+a", "*a", "+a\x00", "+0", "*a"},
 		{"+a", "+b", "+c", "+d", "+e", "+f", "+g", "-d", "-c", "-a", "-b", "-g", "-f", "-e", "-e"},
+		{"+"},                          // only key "": round trip (finding roundtrip-empty-key-tree-dropped)
+		{"+", "+a"},                    // root leaf starting with "": round trip (finding roundtrip-empty-key-root-kmin)
+		{"+a", "+b", "+c", "+d", "+e"}, // plain multi-level tree: round trip must be exact incl. root limits
 	}
 	for _, ops := range fixed {
 		h := &history{g: g, r: r, t: &model.Node{}, m: map[string]int{}, built: true, kind: "empty"}
@@ -564,6 +567,15 @@ func main() {
 			}
 			if !h.stopped {
 				h.probes()
+			}
+		}
+		if !h.stopped && len(h.m) > 0 {
+			ascii := true
+			for k := range h.m {
+				ascii = ascii && isASCII(k)
+			}
+			if ascii {
+				roundTrip(r, h)
 			}
 		}
 	}
